@@ -19,3 +19,4 @@ import DefconModel.Lemmas.Geom.RevSeg
 import DefconModel.Lemmas.Geom.RevArea
 import DefconModel.Lemmas.Geom.CtrlBox
 import DefconModel.Lemmas.Geom.Straight
+import DefconModel.Lemmas.Geom.RevArea2
